@@ -6,6 +6,8 @@ import (
 	"bytes"
 	"encoding/binary"
 	"encoding/hex"
+	"errors"
+	"sync/atomic"
 	"fmt"
 	"os"
 	"strconv"
@@ -245,3 +247,21 @@ func verifRender(chKeys []string, k, v []byte) string {
 }
 
 func hashPayloadOrZero(p []byte) uint64 { return hashPayload(p) }
+
+// VerifFailCommits makes the next n physical commits of the engine's commit coordinator fail
+// (n = 0 restores `Commit(true)`), through the coordinator's own test seam SetCommitFunc.
+func VerifFailCommits(e *Engine, n int) {
+	e.mu.Lock()
+	c := e.committer
+	e.mu.Unlock()
+	if c == nil {
+		return
+	}
+	var seen atomic.Int32
+	c.SetCommitFunc(func(b *engine.Batch) error {
+		if int(seen.Add(1)) <= n {
+			return errors.New("verif: injected commit failure")
+		}
+		return b.Commit(true)
+	})
+}
